@@ -29,8 +29,24 @@ def strategy(shapes, kinds=None, extra=None):
         kappa = draw(st.sampled_from([10.0, 100.0]))
         case = {"Dx": Dx, "Dy": Dy, "Rc": Rc, "Rx": Rx, "N": N, "kind": kind,
                 "c": draw(gen.cond_params(kind, Rc, Dx, Dy, kappa)),
-                "px": draw(gen.measure_params("pdf", Rx, Dx, kappa)),
+                "px": draw(gen.measure_params("pdf", Rx, Dx, kappa, extreme=True)),
                 "x": draw(gen.arr((N, Dx), -2.5, 2.5)), "y": draw(gen.arr((N, Dy), -2.5, 2.5))}
+        # unit consistency: when p(x) lives on an extreme overall scale (see gen.measure_params), the conditional's noise,
+        # offset and the evaluation points are expressed in the same units, so derived matrices stay well conditioned
+        sx = float(np.exp(np.mean(np.log(np.linalg.eigvalsh(np.asarray(case["px"]["Sigma"], float)[0])))))
+        if sx > 1e5 or sx < 1e-5:
+            g = 10.0 ** np.round(np.log10(sx))
+            case["c"]["Sigma"] = np.asarray(case["c"]["Sigma"], float) * g
+            if "b" in case["c"]:
+                case["c"]["b"] = np.asarray(case["c"]["b"], float) * g ** 0.5
+            if kind == "nn":
+                case["c"]["W2"] = np.asarray(case["c"]["W2"], float).copy()
+                case["c"]["W2"][:, Dy * Dx:] *= g ** 0.5
+                case["c"]["b2"] = np.asarray(case["c"]["b2"], float).copy()
+                case["c"]["b2"][Dy * Dx:] *= g ** 0.5
+            case["x"] = np.asarray(case["x"], float) * g ** 0.5
+            case["y"] = np.asarray(case["y"], float) * g ** 0.5
+            case["unit_scale"] = g
         if extra:
             extra(draw, case)
         return case
@@ -41,7 +57,7 @@ def strategy(shapes, kinds=None, extra=None):
 def labels(case):
     combo = "(1,1)" if case["Rc"] == 1 and case["Rx"] == 1 else ("(1,n)" if case["Rc"] == 1 else "(n,1)")
     reg = "Dx>Dy" if case["Dx"] > case["Dy"] else ("Dx=Dy" if case["Dx"] == case["Dy"] else "Dx<Dy")
-    return [f"kind={case['kind']}", f"combo={combo}", reg, f"ctor={case['c'].get('ctor')}"]
+    return [f"kind={case['kind']}", f"combo={combo}", reg, f"ctor={case['c'].get('ctor')}", f"unit_scale={case.get('unit_scale', 1.0):g}"]
 
 
 def nontrivial(case):
